@@ -8,25 +8,36 @@ open UgoVerif UgoVerif.Go UgoVerif.Ast
 
 /-! ### the result of `compileProg` -/
 
-/-- what is proved of the returned bytecode, for the main function and for every compiled function
-    in the constant pool: the locals fit the frame (≤ 256); the instruction stream decodes into
-    complete instructions with known opcodes; the operand of every JUMP / JUMPFALSY / ANDJUMP /
-    ORJUMP and both operands of every SETUPTRY are instruction boundaries of that stream; the
-    constant index of every CONSTANT / CLOSURE instruction is below the size of the constant pool
-    (`StreamOK constants.size`) -/
+/-- what is proved of the returned bytecode.  The main function: at most `maxNumLocals` locals, and it
+    is a finished function without free variables (`FinFn constants 0`).  Every compiled function in
+    the constant pool: at most 256 locals, and it is a finished function for some number of free
+    variables (`ConstsOK`; that number is the free-variable operand of every CLOSURE instruction that
+    names the function, and 0 for CONSTANT — see `TgtOK`). -/
 def WFMain (bc : Bytecode) : Prop :=
-  bc.main.numLocals ≤ maxNumLocals ∧ StreamOK bc.constants.size bc.main.insts ∧ ConstsOK bc.constants
+  bc.main.numLocals ≤ maxNumLocals ∧ FinFn bc.constants 0 bc.main ∧ ConstsOK bc.constants
 
-theorem goodP_compileProg (file : List Stmt) (hok : okSs file = true) : GoodP WFMain (compileProg file) := by
+/-- `compileProg` from a state whose table chain is the root table alone -/
+theorem sat_compileProg (file : List Stmt) (hok : okSs file = true) (s : CState) (hs : Inv s) {t : Table}
+    (htr : s.tables = [t]) : Sat (compileProg file) s (fun bc s' => Inv s' ∧ Rel s s' ∧ WFMain bc) := by
   have h1 := good_compileStmts file hok
-  intro s hs
   unfold compileProg
   apply Sat.bind
   apply Sat.mono (h1 s hs)
   intro _ s1 ⟨hi1, hr1, _⟩
+  have hle : ChainLE [t] s1.tables := by rw [← htr]; exact hr1.chain
+  obtain ⟨t1, r1, htr1, _, hle1⟩ := chainLE_cons_left hle
+  have hr1nil : r1 = [] := by
+    cases r1 with
+    | nil => rfl
+    | cons a b => exact absurd hle1 (by simp [ChainLE])
+  subst hr1nil
+  have hch := hi1.chain
+  rw [htr1] at hch
+  obtain ⟨hblk, hfr⟩ := hch.2.2.2.1 rfl
   apply Sat.bind
-  apply Sat.mono (goodS_finishFn s1 hi1)
-  intro fn s2 ⟨hi2, hr2, hfn⟩
+  apply Sat.mono (sat_finishFn s1 hi1 htr1 hblk)
+  intro fn s2 ⟨hi2, hr2, _, hfn⟩
+  rw [hfr] at hfn
   split
   · exact Sat.throw_bare
   · rename_i hle
@@ -34,5 +45,11 @@ theorem goodP_compileProg (file : List Stmt) (hok : okSs file = true) : GoodP WF
     apply Sat.get
     apply Sat.pure
     exact ⟨hi2, hr1.trans hr2, Nat.le_of_not_gt hle, hfn, hi2.consts⟩
+
+theorem inv_initState (builtins : List (String × Nat)) (disabled : List String)
+    (hb : ∀ p ∈ builtins, p.2 < NB) : Inv (initState builtins disabled) := by
+  refine ⟨by simp [initState], ?_, Walk.refl 0, fun l hl => by simp [initState] at hl,
+    fun c hc => by simp [initState] at hc, fun p op hbd _ => absurd hbd.2 (by simp [initState]), hb⟩
+  refine ⟨fun p hp => by simp at hp, Nat.le_refl _, fun _ y hy => by simp at hy, fun _ => ⟨rfl, rfl⟩, trivial⟩
 
 end UgoVerif.Compile
